@@ -1398,11 +1398,14 @@ impl DB {
         mut force_compaction: bool,
     ) -> RainDBResult<()> {
         let mut allow_write_delay = !force_compaction;
+        #[cfg(feature = "verif")]
+        let verif_call = crate::verif::next_room_call();
 
         loop {
             let num_level_zero_files = mutex_guard.version_set.num_files_at_level(0);
             #[cfg(feature = "verif")]
             let verif_view = crate::verif::RoomView {
+                call: verif_call,
                 force: force_compaction,
                 allow_delay: allow_write_delay,
                 bad: mutex_guard.maybe_bad_database_state.is_some(),
